@@ -350,3 +350,16 @@ PROPS = {
                     "no-misattribution is proved outside four input classes; the unrestricted statement is refuted (4 witnesses)"],
     },
 }
+
+PROPS["C10"] = {
+    "harness": "c10",
+    "props_file": "Props/C10.v",
+    "run_module": "Model.FcSummary Model.RunC10",
+    "run_fn": "run_c10",
+    "pinned_theorems": ["C10_erasedb_correct", "C10_erasedxb_correct", "C10_leavable_decided", "C10_fn_decided",
+                        "C10_param_decided", "C10_member_decided", "C10_item_decided", "C10_classes_sound",
+                        "C10_classes_none"],
+    "rule": ("PROVISIONAL"),
+    "assumptions": [],
+    "partial": [],
+}
